@@ -1,6 +1,11 @@
 /- Native line-protocol driver: one request per line, one answer line per request. -/
 import Driver.Proto
 import Driver.Quad
+import Driver.Solve
+import Driver.Color
+import Driver.IOMap
+import Driver.Topo
+import Driver.Hist
 
 open Driver
 
@@ -8,6 +13,11 @@ def step (line : String) : String :=
   let toks := (line.splitOn " ").filter (· ≠ "")
   match toks with
   | "tri" :: _ | "gauss" :: _ | "duffy" :: _ | "remapv" :: _ | "remape" :: _ | "nqp" :: _ => Driver.Quad.handle toks
+  | "topo" :: _ | "geom" :: _ | "refineverts" :: _ | "baryverts" :: _ | "union" :: _ | "segments" :: _ => Driver.Topo.handle toks
+  | "ioexport" :: _ | "ioimport" :: _ | "iotransform" :: _ => Driver.IOMap.handle toks
+  | "color" :: _ | "g2l" :: _ => Driver.Color.handle toks
+  | "hist" :: _ => Driver.Hist.handle toks
+  | "solve" :: _ | "splitby" :: _ => Driver.Solve.handle toks
   | _ => "err bad-op"
 
 partial def loop (h : IO.FS.Stream) (out : IO.FS.Stream) : IO Unit := do
